@@ -48,9 +48,11 @@ func cliScenarios() []cliScenario {
 		{Name: "include-broken", Files: map[string]string{"main.php": "<?php\necho \"m1;\";\ninclude __DIR__ . \"/broken.php\";\necho \"m2;\";\n", "broken.php": "<?php\nfoo(;\n"}, Input: "s:e1:uncaught", Fail: true, Diag: true, Out: "m1;", Code: -1},
 		{Name: "late-control", Files: map[string]string{"main.php": "<?php\necho \"m1;\";\ngoto nolabel_c05;\necho \"m2;\";\n"}, Input: "s:e1:late", Fail: true, Diag: true, Out: "m1;", Code: -1},
 		{Name: "host-panic", Files: map[string]string{"main.php": "<?php\nclass PairC05<K, V> { public K $a; }\necho \"m1;\";\n$p = new PairC05<int>();\necho \"m2;\";\n"}, Input: "s:e1:panic", Fail: true, Diag: true, Out: "m1;", Code: -1, Best: true},
-		// known: user-level output buffers are never flushed
-		{Name: "ob-uncaught", Files: map[string]string{"main.php": "<?php\necho \"m1;\";\nob_start();\necho \"m2;\";\nthrow new Exception(\"boom\");\n"}, Input: "s:e1,ob,e2:uncaught", Fail: true, Diag: true, Out: "m1;m2;", Code: -1, Known: "cli:ob-buffer-lost", KnownAs: "output-lost"},
-		{Name: "ob-normal", Files: map[string]string{"main.php": "<?php\necho \"m1;\";\nob_start();\necho \"m2;\";\n"}, Input: "s:e1,ob,e2:normal", Out: "m1;m2;", Code: 0, Known: "cli:ob-buffer-lost", KnownAs: "output-lost"},
+		// output still sitting in ob_start buffers is flushed however the script ends
+		{Name: "ob-uncaught", Files: map[string]string{"main.php": "<?php\necho \"m1;\";\nob_start();\necho \"m2;\";\nthrow new Exception(\"boom\");\n"}, Input: "s:e1,ob,e2:uncaught", Fail: true, Diag: true, Out: "m1;m2;", Code: -1},
+		{Name: "ob-normal", Files: map[string]string{"main.php": "<?php\necho \"m1;\";\nob_start();\necho \"m2;\";\n"}, Input: "s:e1,ob,e2:normal", Out: "m1;m2;", Code: 0},
+		{Name: "ob-exit", Files: map[string]string{"main.php": "<?php\necho \"m1;\";\nob_start();\necho \"m2;\";\nob_start();\necho \"m3;\";\nexit(3);\n"}, Input: "s:e1,ob,e2,ob,e3:exit3", Fail: true, Out: "m1;m2;m3;", Code: 3},
+		{Name: "ob-nested-taken-back-uncaught", Files: map[string]string{"main.php": "<?php\necho \"m1;\";\nob_start();\necho \"m2;\";\nob_start();\necho \"m3;\";\n$x = ob_get_clean();\necho \"m4;\";\nfunction f() { throw new Exception(\"boom\"); }\nf();\n"}, Input: "s:e1,ob,e2,ob,e3,oc,e4:uncaught", Fail: true, Diag: true, Out: "m1;m2;m4;", Code: -1},
 		// known: the parser accepts a source whose last block is never closed and runs it
 		{Name: "unclosed-block", Files: map[string]string{"main.php": "<?php\necho \"m1;\";\nif (true) {\n  echo \"m2;\";\n"}, Input: "s:e1,e2:normal", SpecIn: "parse", Fail: true, Diag: true, Out: "", Code: -1, Known: "cli:syntax-error-accepted", KnownAs: "exit-zero+no-diagnostic+output-differs"},
 		{Name: "ob-taken-back", Files: map[string]string{"main.php": "<?php\necho \"m1;\";\nob_start();\necho \"m2;\";\n$x = ob_get_clean();\necho \"m3;\";\nthrow new Exception(\"boom\");\n"}, Input: "s:e1,ob,e2,oc,e3:uncaught", Fail: true, Diag: true, Out: "m1;m3;", Code: -1},
@@ -198,7 +200,9 @@ func (r *runner) cli(only string) {
 				}
 				if ans != want {
 					note := ""
-					if pin, e2 := r.m.Ask("cli\tpinned\t" + sc.Input); e2 == nil && strings.HasPrefix(pin, strings.SplitN(want, " out=", 2)[0]) {
+					if pin, e2 := r.m.Ask("cli\tnoflush\t" + sc.Input); e2 == nil && pin == want {
+						note = "the binary agrees with Model.Cli without flushOnExit: fix C05-flush-buffers-before-exit is missing from this tree"
+					} else if pin, e2 := r.m.Ask("cli\tpinned\t" + sc.Input); e2 == nil && strings.HasPrefix(pin, strings.SplitN(want, " out=", 2)[0]) {
 						note = "the binary agrees with the pre-fix (pinned) Model.Cli: fix C05-cli-exit-status is missing from this tree"
 					}
 					r.c.Mismatch(rp, want, ans, note)
